@@ -324,7 +324,14 @@ def r07g(ctx):
     ctx.check(ok, "R07g", f"{AVZ}.__init__.<get_signal>", "zero hadronic energy is mapped to eps = -inf (outside every arm) instead of log10(0)", "", key_detail="zero hadronic energy")
 
 
+def r07h(ctx):
+    from ._fwd import forwarding
+    ctx.rule("R07h", "every Askaryan model (and the deprecated alias classes) hands its constructor parameters -- times, particle, angle, distance, ice model, t0 -- to the model it extends", expected=5, kind="N")
+    forwarding(ctx, "R07h", {"pyrex.askaryan"}, "Askaryan models")
+
+
 def run(ctx):
+    ctx.guard(r07h)
     ctx.guard(r07g)
     ctx.guard(r07a)
     ctx.guard(r07b)
